@@ -46,6 +46,8 @@ Universal(fr, r, R, D, ret) ==
 (*   ioerr     a read fails with an I/O error                                *)
 (*   oversize  more bytes than an ADU can hold, no earlier complete reply    *)
 (*   writeerr  the write is rejected        cancel  the caller cancels       *)
+(*   writestall the peer never takes the request: the write ends when the    *)
+(*             write deadline the client has set expires                     *)
 (*   notconnected / nilreq                                                   *)
 (*   connectfailed(nil)  the only Connect failed: the dial function returned *)
 (*             an error together with a connection / a typed nil connection  *)
@@ -70,6 +72,10 @@ Demand(fault, fr, r, R, D, ret, touched) ==
             IF ret.kind = "clienterr" /\ ret.tooLong = 1 THEN "ok" ELSE "oversize-reply-not-reported-as-packet-too-long"
       [] fault = "writeerr" ->
             IF ret.kind = "clienterr" /\ ret.wrapsCause = 1 THEN "ok" ELSE "write-error-not-reported-as-client-error-wrapping-cause"
+      [] fault = "writestall" ->
+            IF ret.kind = "clienterr" THEN "ok"
+            ELSE IF ret.kind = "ok" THEN "success-although-the-request-was-never-taken-by-the-peer"
+            ELSE "write-timeout-not-reported-as-client-error"
       [] fault = "cancel" ->
             IF ret.kind = "ctxerr" THEN "ok" ELSE "cancellation-not-reported-as-context-error"
       [] fault \in {"notconnected", "nilreq", "connectfailed", "connectfailednil"} ->
